@@ -120,6 +120,36 @@ def main():
         if r[0] != "exc":
             fail("mixed REF/OFS cycle not rejected cleanly", {"outcome": list(map(str, r))[:2]})
 
+        # rho-shaped chains: the entry looked up is NOT on the cycle but leads into it (S -> X -> Y -> X ...), tails of length 1 and 2
+        n3, n4 = bytes([3] * 20), bytes([4] * 20)
+        for tail in (1, 2):
+            cases += 1
+            body = b"PACK" + struct.pack(">LL", 2, 2 + tail)
+            offs_ = []
+            offs_.append(len(body))                                  # Y = REF_DELTA(name of X)
+            body += bytes(P.pack_object_header(7, n1, len(delta), FMT)) + zlib.compress(delta)
+            offs_.append(len(body))                                  # X = OFS_DELTA -> Y
+            body += bytes(P.pack_object_header(6, offs_[1] - offs_[0], len(delta), FMT)) + zlib.compress(delta)
+            for _k in range(tail):                                   # S (, S2) = OFS_DELTA -> previous entry
+                offs_.append(len(body))
+                body += bytes(P.pack_object_header(6, offs_[-1] - offs_[-2], len(delta), FMT)) + zlib.compress(delta)
+            data = body + hashlib.sha1(body).digest()
+            base = os.path.join(d, f"c_rho{tail}")
+            open(base + ".pack", "wb").write(data)
+            names_ = [n2, n1, n3, n4][:2 + tail]                     # Y, X, S, S2
+            with open(base + ".idx", "wb") as f:
+                P.write_pack_index(f, sorted((nm, off, 0) for nm, off in zip(names_, offs_)), data[-20:], version=2)
+            for nm in names_:
+                def use_rho(base=base, nm=nm):
+                    p = P.Pack(base, object_format=FMT)
+                    try:
+                        return p.get_raw(nm)
+                    finally:
+                        p.close()
+                r = guarded(use_rho)
+                if r[0] != "exc":
+                    fail("rho-shaped delta chain (an entry leading into a cycle) not rejected cleanly", {"tail": tail, "entry": names_.index(nm), "outcome": list(map(str, r))[:2]})
+
         # ---------- (b) mutation sweeps
         blobs = [Blob.from_string(b"hello\n"), Blob.from_string(b"hello\nworld\n"), Blob.from_string(b"")]
         f = BytesIO()
@@ -315,7 +345,7 @@ def main():
                     fail("damaged index accepted (trailer not verified)", {"mutation": [kind, where]})
     print(json.dumps({"name": "c04_hostile", "function": "ingestion paths: Pack.get_raw, add_thin_pack / add_pack+commit / add_pack_data (memory/disk), read_packed_refs, ShaFile.from_file/from_path, Index.read",
                       "cases": cases, "exhaustive": True,
-                      "bound": f"4 crafted delta graphs; every truncation, 3 appended tails, bit flip and {len(subs)} substitute values at every position of "
+                      "bound": f"6 crafted delta graphs (cycles, self reference, offset before the start, mixed REF/OFS cycle, rho-shaped chains); every truncation, 3 appended tails, bit flip and {len(subs)} substitute values at every position of "
                                f"a {len(good_pack)}-byte pack (x memory/disk store), a packed-refs file, a loose object and an index file; truncations/flips/tails x add_pack+commit and add_pack_data, 5 packs carrying an unparsable tree/tag/commit "
                                f"x 3 ingestion paths x 2 stores with the store compared before/after (fresh instance too); 2 loose-object bombs (peak memory <= 8 MiB); 10 long-name index forgeries; 5 s cap per case",
                       "ingest_outcomes": outcomes, "failures": failures, "secs": round(time.time() - t0, 2)}))
